@@ -2,14 +2,15 @@
 Spec: server/AcceptDispatch.tla with Kill / TearDown / Replace (worker generations, late availability notifications)."""
 import srvflow
 
-INV = ["T_C08_NoPanic", "T_C08_NoSpin", "T_C08_NoGhostBit", "T_C08_NoDupHandles", "T_C08_Rerouted", "T_C08_ServiceResumes", "T_C01_Conservation"]
+INV = ["T_C08_NoPanic", "T_C08_NoSpin", "T_C08_NoGhostBit", "T_C08_NoDupHandles", "T_C08_Rerouted", "T_C08_ServiceResumes", "T_C08_NoLostIndex", "T_C01_Conservation"]
 DESIGN = ["MC_fault_quick.cfg", "MC_fault_w1.cfg", "MC_cmd_fault_w1.cfg"]
 EDGES = ["MC_fault_quick.cfg", "MC_fault_w1.cfg", "MC_cmd_fault_w1.cfg"]
 THOROUGH = ["MC_fault2.cfg", "MC_fault_w3.cfg", "MC_fault_w3l2.cfg", "MC_cmd_fault.cfg"]
 NEGS = {"NEG_IgnoreUnknownIdx_2f.cfg": ["C08_NoGhostBit", "C08_NoPanic"],
         "NEG_IgnoreUnknownIdx_2f_panic_only.cfg": ["C08_NoPanic"],
         "NEG_IgnoreUnknownIdx_spin_only.cfg": ["C08_NoSpin"],
-        "NEG_RejoinPausedNoAvail.cfg": ["C04_BitsTrueWhenCalm", "C03_NoLostWake"]}
+        "NEG_RejoinPausedNoAvail.cfg": ["C04_BitsTrueWhenCalm", "C03_NoLostWake"],
+        "NEG_ReportOnlyIfBitSet.cfg": ["C08_NoLostIndex"]}
 
 
 def nontrivial(s, run):
